@@ -7,7 +7,8 @@
    ^{} powers, juxtaposition and \cdot as product, + - signs, =, \left( \right), plain ( ), { } groups,
    \left| \right| as Abs, function macros (\sin ... \log_{b} ... \operatorname{f}) applied to a bracket group.
    Precedence is that of ordinary mathematical notation:  = | + - | juxtaposition | ^ ;  a leading minus applies
-   to the whole first term (- a b = -(a b)); a term after + or - may carry one sign of its own (a - - b).  The result is an `aexpr` of Model/CodeSyntax.v, evaluated by `aeval`.
+   to the whole first term (- a b = -(a b)); a term after + or - may carry one sign of its own (a - - b).
+   Blanks are insignificant as in TeX: numerals separated only by blanks are rejected (they would typeset as one number).  The result is an `aexpr` of Model/CodeSyntax.v, evaluated by `aeval`.
    It contains no knowledge of symplyphysics' printer. *)
 From Coq Require Import String Ascii List ZArith NArith Bool Arith.
 From VP Require Import Model.CodeSyntax.
@@ -163,6 +164,9 @@ Definition tex_delim (s : string) : option (string * string) :=
   | EmptyString => None
   end.
 
+Definition next_is_digit (s : string) : bool :=
+  match s with String c _ => is_digit c | EmptyString => false end.
+
 Inductive tlres : Type := TLOk (ts : list ttok) | TLErr | TLOof.
 Definition tlcons (t : ttok) (r : tlres) : tlres := match r with TLOk ts => TLOk (t :: ts) | e => e end.
 
@@ -179,7 +183,11 @@ Fixpoint tlex_fuel (n : nat) (names : list string) (s : string) : tlres :=
         | None =>
             if is_digit c then
               match tex_number s with
-              | (TNum m e, rest) => tlcons (XNum m e) (tlex_fuel n names rest)
+              | (TNum m e, rest) =>
+                  (* TeX discards blanks in math mode: "2 3^{a}" typesets as 23^a.  Two numerals separated only by
+                     blanks are therefore NOT a product; the reader rejects them instead of guessing. *)
+                  if next_is_digit (snd (span is_space rest)) then TLErr
+                  else tlcons (XNum m e) (tlex_fuel n names rest)
               | _ => TLErr
               end
             else if is_letter c then
